@@ -811,6 +811,14 @@ def run(ctx):
     import pennylane as qp
 
     warnings.filterwarnings("ignore")
+    # keep a complete list of violation mechanisms in evidence (the bus stores only the first witnesses)
+    _orig_violation = ctx.violation
+
+    def _violation(monitor, message, case=None, mech=None, observed=None, expected=None):
+        ctx.note_add("violation_mechs", f"{monitor}|{mech}", cap=150)
+        ctx.count(f"violations.{mech}")
+        return _orig_violation(monitor, message, case=case, mech=mech, observed=observed, expected=expected)
+    ctx.violation = _violation
     sy = Synth(qp)
     NR = ctx.n(1600, 8000)     # symbolic routing cases
     NH = ctx.n(700, 4000)     # edit histories
